@@ -917,6 +917,24 @@ def r4_readback(program, folder, rep):
                    (V("rec"),), ()), item)
         if m is not None:
             oks = _record_cut(folder, env, fn, m["rec"], DATA, size)
+    elif not aps and DATA is not None:
+        # the table built by a comprehension over the record offsets
+        found = False
+        for r_ in returns_of(fn):
+            if r_.value is None:
+                continue
+            t_ = strip_new(T.term(r_.value, T.cfg.node_of(r_)))
+            if t_[0] == "listcomp":
+                m = match(("call", ("global", "unpack_routing_table_entry"),
+                           (V("rec"),), ()), t_[1])
+                if m is not None:
+                    found = True
+                    oks = _record_cut(folder, env, fn, m["rec"], DATA, size)
+        if not found:
+            raise AnalysisError("get_routing_table_entries: the records "
+                                "are neither appended one by one nor built "
+                                "by a comprehension over the copy; that "
+                                "form is not read")
     rep.check(oks, "C10-R4", inst, "the copy is cut into consecutive "
               "records of that size, decoded in order",
               construct="readback slicing", node=fn)
